@@ -15,7 +15,7 @@ import (
 	"github.com/miekg/dns"
 )
 
-//verif:harness H18_wire property=C18 native=yes quick=k=1,vmax=2;k=2,vmax=1 thorough=k=2,vmax=2;k=3,vmax=1
+//verif:harness H18_wire property=C18 native=yes quick=k=1,vmax=2,empty=0;k=2,vmax=1,empty=0;k=2,vmax=1,empty=1 thorough=k=2,vmax=2,empty=0;k=3,vmax=1,empty=0;k=3,vmax=1,empty=1
 
 var verifVmax = 2
 
@@ -150,10 +150,27 @@ func verifParamText(d *verifDecl) []byte {
 	return t
 }
 
+// verifStrict selects how the judge reports: assertions, or (when two readings of a malformed
+// list are admissible) a verdict in verifOK.
+var verifStrict, verifOK = true, true
+
+func ck(cond bool, label string) {
+	if verifStrict {
+		nd.Assert(cond, label)
+	} else if !cond {
+		verifOK = false
+	}
+}
+
 // H18_wire: see file comment.
 func H18_wire() {
 	k := nd.Param("k")
 	verifVmax = nd.Param("vmax")
+	// malformed variant: an empty item (a doubled, leading or trailing ';') before item p
+	empty := -1
+	if nd.Param("empty") == 1 {
+		empty = nd.Choice(k + 1)
+	}
 	decls := make([]*verifDecl, k)
 	var text []byte
 	for i := range decls {
@@ -161,8 +178,33 @@ func H18_wire() {
 		if i > 0 {
 			text = append(text, ';')
 		}
+		if i == empty {
+			text = append(text, ';')
+		}
 		text = append(text, verifParamText(decls[i])...)
 	}
+	if empty == k {
+		text = append(text, ';')
+	}
+	var l ParamList
+	err := l.FromText(text)
+	if empty < 0 || empty == k {
+		// well-formed, or a trailing separator only
+		verifJudge18(decls, l, err)
+		return
+	}
+	// An empty item in the middle: the statement does not say whether the list ends there or the
+	// empty item is skipped; the outcome must be right for one of the two readings as a whole.
+	verifStrict, verifOK = false, true
+	verifJudge18(decls[:empty], l, err)
+	if verifOK {
+		return
+	}
+	verifStrict = true
+	verifJudge18(decls, l, err)
+}
+
+func verifJudge18(decls []*verifDecl, l ParamList, err error) {
 	// what the statement says must be rejected
 	present := map[int]bool{}
 	dup := false
@@ -195,39 +237,37 @@ func H18_wire() {
 		}
 	}
 
-	var l ParamList
-	err := l.FromText(text)
 	if err != nil {
-		nd.Assert(dup || mandBad || valueBad, "rejected-only-for-a-stated-reason")
+		ck(dup || mandBad || valueBad, "rejected-only-for-a-stated-reason")
 		return
 	}
-	nd.Assert(!dup, "repeated-key-rejected")
-	nd.Assert(!mandBad, "bad-mandatory-rejected")
-	nd.Assert(!valueBad, "out-of-range-port-rejected")
+	ck(!dup, "repeated-key-rejected")
+	ck(!mandBad, "bad-mandatory-rejected")
+	ck(!valueBad, "out-of-range-port-rejected")
 
 	var wire bytes.Buffer
-	nd.Assert(l.ToWire(&wire) == nil, "towire-ok")
+	ck(l.ToWire(&wire) == nil, "towire-ok")
 	w := wire.Bytes()
 
 	// keys strictly increasing, lengths consistent (own parse of the wire form)
 	last := -1
 	for off := 0; off < len(w); {
-		nd.Assert(off+4 <= len(w), "wire-header-complete")
+		ck(off+4 <= len(w), "wire-header-complete")
 		key := int(w[off])<<8 | int(w[off+1])
 		ln := int(w[off+2])<<8 | int(w[off+3])
-		nd.Assert(key > last, "keys-strictly-increasing")
+		ck(key > last, "keys-strictly-increasing")
 		last = key
 		off += 4 + ln
-		nd.Assert(off <= len(w), "wire-value-complete")
+		ck(off <= len(w), "wire-value-complete")
 	}
 
 	// independent decoder: miekg/dns
 	rdata := append([]byte{0, 1, 0}, w...) // priority 1, target "."
 	hdr := dns.RR_Header{Name: ".", Rrtype: dns.TypeSVCB, Class: dns.ClassINET, Rdlength: uint16(len(rdata))}
 	rr, _, uerr := dns.UnpackRRWithHeader(hdr, rdata, 0)
-	nd.Assert(uerr == nil, "independent-decoder-accepts")
+	ck(uerr == nil, "independent-decoder-accepts")
 	vals := rr.(*dns.SVCB).Value
-	nd.Assert(len(vals) == len(decls), "one-wire-param-per-declared-key")
+	ck(len(vals) == len(decls), "one-wire-param-per-declared-key")
 	for _, d := range decls {
 		var kv dns.SVCBKeyValue
 		for _, v := range vals {
@@ -235,42 +275,46 @@ func H18_wire() {
 				kv = v
 			}
 		}
-		nd.Assert(kv != nil, "declared-key-present-on-the-wire")
+		ck(kv != nil, "declared-key-present-on-the-wire")
 		switch d.key {
 		case 0:
 			m := kv.(*dns.SVCBMandatory)
-			nd.Assert(len(m.Code) == len(d.mand), "mandatory-count")
+			ck(len(m.Code) == len(d.mand), "mandatory-count")
+			for i := 1; i < len(m.Code); i++ {
+				// RFC 9460 section 8: the value lists the keys in strictly increasing numeric order
+				ck(m.Code[i-1] < m.Code[i], "mandatory-value-keys-strictly-increasing")
+			}
 			for _, want := range d.mand {
 				found := false
 				for _, c := range m.Code {
 					found = found || int(c) == want
 				}
-				nd.Assert(found, "mandatory-names-faithful")
+				ck(found, "mandatory-names-faithful")
 			}
 		case 1:
 			a := kv.(*dns.SVCBAlpn)
-			nd.Assert(len(a.Alpn) == len(d.alpn), "alpn-count")
+			ck(len(a.Alpn) == len(d.alpn), "alpn-count")
 			for i := range d.alpn {
-				nd.Assert(a.Alpn[i] == string(d.alpn[i]), "alpn-ids-faithful")
+				ck(a.Alpn[i] == string(d.alpn[i]), "alpn-ids-faithful")
 			}
 		case 2:
 			_, ok := kv.(*dns.SVCBNoDefaultAlpn)
-			nd.Assert(ok, "no-default-alpn-empty")
+			ck(ok, "no-default-alpn-empty")
 		case 3:
-			nd.Assert(uint32(kv.(*dns.SVCBPort).Port) == d.port, "port-faithful")
+			ck(uint32(kv.(*dns.SVCBPort).Port) == d.port, "port-faithful")
 		case 4:
 			h := kv.(*dns.SVCBIPv4Hint)
-			nd.Assert(len(h.Hint) == len(d.v4), "ipv4hint-count")
+			ck(len(h.Hint) == len(d.v4), "ipv4hint-count")
 			for i := range d.v4 {
-				nd.Assert(h.Hint[i].Equal(net.IP(d.v4[i][:])), "ipv4hint-faithful")
+				ck(h.Hint[i].Equal(net.IP(d.v4[i][:])), "ipv4hint-faithful")
 			}
 		case 5:
-			nd.Assert(bytes.Equal(kv.(*dns.SVCBECHConfig).ECH, d.ech), "ech-faithful")
+			ck(bytes.Equal(kv.(*dns.SVCBECHConfig).ECH, d.ech), "ech-faithful")
 		case 6:
 			h := kv.(*dns.SVCBIPv6Hint)
-			nd.Assert(len(h.Hint) == len(d.v6), "ipv6hint-count")
+			ck(len(h.Hint) == len(d.v6), "ipv6hint-count")
 			for i := range d.v6 {
-				nd.Assert(h.Hint[i].Equal(d.v6[i]), "ipv6hint-faithful")
+				ck(h.Hint[i].Equal(d.v6[i]), "ipv6hint-faithful")
 			}
 		}
 	}
@@ -279,8 +323,8 @@ func H18_wire() {
 	var txt bytes.Buffer
 	l.ToText(&txt)
 	var l2 ParamList
-	nd.Assert(l2.FromText(txt.Bytes()) == nil, "printed-text-parses")
+	ck(l2.FromText(txt.Bytes()) == nil, "printed-text-parses")
 	var wire2 bytes.Buffer
-	nd.Assert(l2.ToWire(&wire2) == nil, "towire2-ok")
-	nd.Assert(bytes.Equal(wire2.Bytes(), w), "print-parse-same-wire")
+	ck(l2.ToWire(&wire2) == nil, "towire2-ok")
+	ck(bytes.Equal(wire2.Bytes(), w), "print-parse-same-wire")
 }
